@@ -149,7 +149,9 @@ def gen_random(rng):
 
 def gen_lattice(rng):
     kind = rng.choice(["square", "triangular", "honeycomb"])
-    nx, ny = rng.randint(3, 4), rng.randint(3, 4)
+    nx, ny = rng.choice([3, 3, 4, 5]), rng.choice([3, 3, 4, 5])   # 4 puts pair distances of spatial_corr on rint ties (skipped there)
+    if kind == "honeycomb":
+        nx, ny = rng.choice([3, 3, 3, 4]), rng.choice([3, 3, 3, 4])
     a = F(rng.choice(["1", "1.5", "1.12", "0.9"]))
     if kind == "square":
         a1, a2 = (a, F(0)), (F(0), a)
@@ -233,7 +235,7 @@ def add_common(rng, c):
         W = rng.randint(1, T - 1)
         dstep = c["steps"][1] - c["steps"][0]
         c["period"] = fdec((W + F(rng.choice(["0.5", "0.25", "0.75", "0.1"]))) * dstep * F(c["dt"]))
-    c["rdelta"] = rng.choice(["0.07", "0.13", "0.2", "0.31", "0.05"])
+    c["rdelta"] = rng.choice(["0.13", "0.31", "0.17"] if c["lat_l"] else ["0.07", "0.13", "0.2", "0.31", "0.053"])
     return c
 
 
@@ -635,6 +637,7 @@ def run_cases(run, cases, count=True):
                 continue
             if margin < MARGIN:
                 skipped += 1
+                run.hist("skipped_inside_margin_by_op", f"phi:{c['kind']}")
                 continue
             model = parse_c(toks[1:])
             if not arr_close(real["phi"][extra], model):
@@ -644,6 +647,7 @@ def run_cases(run, cases, count=True):
             margin = fr(toks[0]); cut = bits2float(toks[1]); W = int(toks[2])
             if margin < MARGIN or (extra == 0 and cut < 1e-6):
                 skipped += 1
+                run.hist("skipped_inside_margin_by_op", f"tavg{extra}:{c['kind']}")
                 continue
             q, ids = real[f"tavg{extra}"]
             nav = c["T"] - W
@@ -662,6 +666,7 @@ def run_cases(run, cases, count=True):
             margin = fr(toks[0]); maxbin = int(toks[1])
             if margin < MARGIN:
                 skipped += 1
+                run.hist("skipped_inside_margin_by_op", f"scorr:{c['kind']}")
                 continue
             v = np.array([bits2float(t) for t in toks[2:]]).reshape(-1, 3)
             r, g, a = real["scorr"]
